@@ -39,6 +39,34 @@ def shared_callable(i):
   return SHARED[i]
 
 
+def annotated_callable(i):
+  """A callable with Annotated[...] tags, configured for the first time by several threads at once."""
+  key = ('annotated', i)
+  if key not in SHARED:
+    import typing
+    ns = {'typing': typing, 'T0': targets.T0, 'T1': targets.T1}
+    exec(f"def annot_{i}(lr: typing.Annotated[float, T1] = 0.1, wd: typing.Annotated[float, T0, T1] = 0.0, "
+         f"name='n'):\n  return ('annot_{i}', lr, wd, name)\n", ns)
+    fn = ns[f'annot_{i}']
+    fn.__module__ = 'harness.props.C19'
+    fn.__qualname__ = f'annot_{i}'
+    import sys as _sys
+    setattr(_sys.modules['harness.props.C19'], f'annot_{i}', fn)
+    SHARED[key] = fn
+  return SHARED[key]
+
+
+def prog_annotated(tid, seed):
+  def run():
+    f = annotated_callable(seed % 5)
+    cfg = fdl.Config(f, name=f't{tid}')
+    tags = {n: sorted(t.__name__ for t in ts) for n, ts in cfg.__argument_tags__.items() if ts}
+    fdl.set_tagged(cfg, tag=targets.T0, value=0.5 + tid)
+    sel = sorted(repr(x) for x in fdl.selectors.select(cfg, tag=targets.T1)) if hasattr(fdl, 'selectors') else []
+    return ['annotated', tags, cfg.wd, repr(fdl.build(cfg)), sel]
+  return run
+
+
 def prog_build(tid, seed):
   def run():
     f = fresh_fn(f'b{tid}_{seed}')
@@ -74,8 +102,9 @@ def prog_edit(tid, seed):
     cfg.q = 13
     del cfg.r
     after = fdl_history.tracking_enabled()
-    hist = {k: [(e.kind.name, repr(e.new_value)) for e in v] for k, v in cfg.__argument_history__.items()
-            if k != '__fn_or_cls__'}
+    # (with the place each change was made from: the same source lines in every thread)
+    hist = {k: [(e.kind.name, repr(e.new_value), e.location.function_name, e.location.line_number) for e in v]
+            for k, v in cfg.__argument_history__.items() if k != '__fn_or_cls__'}
     ids = [e.sequence_id for v in cfg.__argument_history__.values() for e in v]
     ids_sorted = sorted(ids)
     order = [k for _, k in sorted((e.sequence_id, k) for k, v in cfg.__argument_history__.items()
@@ -177,7 +206,7 @@ EXPECTED_ALONE = {
 }
 
 PROGS = {'build': prog_build, 'edit': prog_edit, 'copy': prog_copy_dump, 'sig': prog_sig,
-         'fail': prog_fail, 'tracking_off': prog_tracking_off}
+         'fail': prog_fail, 'tracking_off': prog_tracking_off, 'annotated': prog_annotated}
 
 
 def cases(tier, r):
@@ -191,6 +220,12 @@ def cases(tier, r):
   # entered, the other thread builds, then the callable raises)
   for progs in (['fail', 'build'], ['fail', 'fail'], ['build', 'fail']):
     yield 'fail_preempt', {'progs': progs, 'seed': r.getrandbits(24), 'mode': 'single', 'stride': 1}
+  # an editing thread pre-empted at (up to 200 evenly spaced) single lines - inside the constructor
+  # too - by another thread that constructs and edits its own configuration
+  for progs in (['annotated', 'annotated'], ['annotated', 'annotated', 'edit']):
+    yield 'annot_preempt', {'progs': progs, 'seed': r.getrandbits(24), 'mode': 'single', 'stride': 1}
+  for progs in (['edit', 'edit'], ['edit', 'tracking_off']):
+    yield 'edit_preempt', {'progs': progs, 'seed': r.getrandbits(24), 'mode': 'single', 'stride': 1}
   for i in range(2 if tier == 'quick' else 12):
     yield 'copies', {'progs': ['copy', 'copy', 'copy'][:2 + i % 2], 'seed': r.getrandbits(24), 'mode': 'random',
                      'p': 0.02, 'runs': 1 if tier == 'quick' else 4}
@@ -249,6 +284,7 @@ MODEL_OPS = {
     'sig': [],
     'fail': [['enterBuild'], ['exitBuild'], ['readInBuild']],
     'tracking_off': [],
+    'annotated': [],
 }
 
 
